@@ -4,6 +4,7 @@ package memdb
 
 import (
 	"fmt"
+	"reflect"
 	"sort"
 
 	"github.com/innovationb1ue/RedisGO/verifrt/vsync"
@@ -83,6 +84,38 @@ func (m *MemDb) VerifDump() *VerifDumpT {
 	}
 	if int64(nTTL) != m.ttlKeys.count {
 		d.Invariants = append(d.Invariants, fmt.Sprintf("ttl-count: counter=%d entries=%d", m.ttlKeys.count, nTTL))
+	}
+	// no two keys may share one mutable value object (or one underlying table): a later write to
+	// one key would silently change the other
+	owner := map[uintptr]string{}
+	share := func(ptr uintptr, key string) {
+		if ptr == 0 {
+			return
+		}
+		if o, ok := owner[ptr]; ok && o != key {
+			d.Invariants = append(d.Invariants, fmt.Sprintf("aliased-value: keys %q and %q share one value object", o, key))
+			return
+		}
+		owner[ptr] = key
+	}
+	for _, e := range all {
+		switch v := e.v.(type) {
+		case *List:
+			share(reflect.ValueOf(v).Pointer(), e.k)
+		case *Hash:
+			share(reflect.ValueOf(v).Pointer(), e.k)
+			share(reflect.ValueOf(v.table).Pointer(), e.k)
+		case *Set:
+			share(reflect.ValueOf(v).Pointer(), e.k)
+			share(reflect.ValueOf(v.table).Pointer(), e.k)
+		case *SortedSet[*SortedSetNode]:
+			share(reflect.ValueOf(v).Pointer(), e.k)
+			if v.Btree != nil {
+				share(reflect.ValueOf(v.Btree).Pointer(), e.k)
+			}
+		case *Stream:
+			share(reflect.ValueOf(v).Pointer(), e.k)
+		}
 	}
 	present := map[string]bool{}
 	for _, e := range all {
